@@ -42,7 +42,10 @@ class FuncLowerer:
         self.ret_is_ref = False
         self.is_method = d.get('kind') in ('CXXMethodDecl', 'CXXConstructorDecl', 'CXXDestructorDecl', 'CXXConversionDecl') \
             and not is_static_method(unit, d)
-        self.closure = None       # for lambda operator(): capture map id -> field name
+        self.closure = None       # for lambda operator(): capture map id -> C expression
+        cls = self.class_of_method(d) if d.get('kind') == 'CXXMethodDecl' else None
+        if cls is not None and cls.get('definitionData', {}).get('isLambda'):
+            self.closure = self.closure_map(cls)
 
     # ------------------------------------------------------------------ helpers
     def fresh_tmp(self, ty):
@@ -73,6 +76,34 @@ class FuncLowerer:
         while p is not None and p.get('kind') in ('FunctionTemplateDecl',):
             p = p.get('_parent')
         return p
+
+    def closure_map(self, rec):
+        """captured variable id (or 'this') -> C expression over the closure object `self`"""
+        u = self.u
+        lam = rec.get('_parent')
+        if lam is None or lam.get('kind') != 'LambdaExpr':
+            abort('lambda record without LambdaExpr parent', rec)
+        fields = [c for c in rec.get('inner', []) if c.get('kind') == 'FieldDecl']
+        inits = [c for c in lam.get('inner', []) if c.get('kind') not in ('CXXRecordDecl', 'CompoundStmt')]
+        if len(fields) != len(inits):
+            abort('lambda capture count mismatch', lam)
+        u.records.setdefault(u.qualname(rec), rec)
+        u.record_fields(rec)      # names the capture fields cap0..capN
+        m = {}
+        for f, ini in zip(fields, inits):
+            fname = u.field_cname(f)
+            fty = u.type_of(f)
+            acc = '(*self->%s)' % fname if u.is_ref(fty) else 'self->%s' % fname
+            core = ini
+            while core.get('kind') in ('ImplicitCastExpr', 'ParenExpr', 'UnaryOperator', 'CXXConstructExpr', 'MaterializeTemporaryExpr') and core.get('inner'):
+                core = core['inner'][0]
+            if core.get('kind') == 'CXXThisExpr':
+                m['this'] = 'self->%s' % fname
+            elif core.get('kind') == 'DeclRefExpr':
+                m[core['referencedDecl']['id']] = acc
+            else:
+                abort('lambda capture initialiser of kind %s' % core.get('kind'), ini)
+        return m
 
     def this_type(self):
         cls = self.class_of_method(self.d)
@@ -1274,8 +1305,9 @@ class FuncLowerer:
         if len(inits) != len(fields):
             abort('lambda capture count mismatch (%d fields, %d inits)' % (len(fields), len(inits)), e)
         out = []
+        u.record_fields(rec)      # names the capture fields
         for i, (f, ini) in enumerate(zip(fields, inits)):
-            fname = lambda_field_name(f, i)
+            fname = u.field_cname(f)
             fty = u.type_of(f)
             if u.is_ref(fty):
                 out.append('%s%s.%s = %s;' % (pad, target, fname, self.addr(ini)))
@@ -1351,6 +1383,16 @@ class FuncLowerer:
             if name in ('addressof', '__addressof'):
                 return addr_of(x)
             return x
+        if name in ('max', 'min', 'lowest') and len(args) == 0:
+            # std::numeric_limits<T>::min()/max() for integral T
+            ty = u.strip_ref(u.type_of(e))
+            lim = {'long': ('(-9223372036854775807L-1)', '9223372036854775807L'), 'int': ('(-2147483647-1)', '2147483647'),
+                   'unsigned long': ('0UL', '18446744073709551615UL'), 'unsigned int': ('0U', '4294967295U'),
+                   'short': ('(-32768)', '32767'), 'unsigned short': ('0', '65535'), 'signed char': ('(-128)', '127'), 'unsigned char': ('0', '255'),
+                   'long long': ('(-9223372036854775807LL-1)', '9223372036854775807LL'), 'unsigned long long': ('0ULL', '18446744073709551615ULL')}
+            if ty[0] != 'b' or ty[1] not in lim:
+                abort('numeric_limits::%s of %r' % (name, ty), e)
+            return lim[ty[1]][1 if name == 'max' else 0]
         if name in ('max', 'min'):
             a, b = args
             ty = u.strip_ref(u.type_of(e))
